@@ -82,7 +82,13 @@ impl Value {
                 }
             }
             Value::Str(s) => format!("'{}'", s.replace('\'', "''")),
-            Value::Date(d) => format!("DATE '{}'", date_string(*d)),
+            Value::Date(d) => {
+                if sqlite_dialect() {
+                    format!("'{}'", date_string(*d))
+                } else {
+                    format!("DATE '{}'", date_string(*d))
+                }
+            }
             Value::Bool(b) => if *b { "TRUE" } else { "FALSE" }.into(),
         }
     }
@@ -104,7 +110,8 @@ impl Value {
             (Value::Date(a), Value::Date(b)) => a.cmp(b),
             (Value::Str(a), Value::Str(b)) => a.cmp(b),
             (a, b) if a.rank() == 2 && b.rank() == 2 => {
-                let (x, y) = (a.as_f64().unwrap(), b.as_f64().unwrap());
+                // -0.0 and 0.0 are the same SQL value: normalise before ordering
+                let (x, y) = (a.as_f64().unwrap() + 0.0, b.as_f64().unwrap() + 0.0);
                 x.total_cmp(&y)
             }
             (a, b) => a.rank().cmp(&b.rank()),
@@ -112,9 +119,27 @@ impl Value {
     }
 }
 
+thread_local! {
+    static SQLITE_DIALECT: std::cell::Cell<bool> = const { std::cell::Cell::new(false) };
+}
+/// Rendering switch used only by the SQLite cross-check export (dates as ISO
+/// strings, explicit NULLS LAST default).
+pub fn sqlite_dialect() -> bool {
+    SQLITE_DIALECT.with(|d| d.get())
+}
+pub fn set_sqlite_dialect(on: bool) {
+    SQLITE_DIALECT.with(|d| d.set(on));
+}
+
 pub fn date_string(days: i32) -> String {
-    let d = chrono::NaiveDate::from_ymd_opt(1970, 1, 1).unwrap() + chrono::Duration::days(days as i64);
-    d.format("%Y-%m-%d").to_string()
+    match chrono::NaiveDate::from_ymd_opt(1970, 1, 1)
+        .unwrap()
+        .checked_add_signed(chrono::Duration::days(days as i64))
+    {
+        Some(d) => d.format("%Y-%m-%d").to_string(),
+        // out of chrono's range (e.g. an i32::MIN/MAX sentinel leaking from the engine)
+        None => format!("date({})", days),
+    }
 }
 
 #[derive(Clone, Copy, Debug, Serialize, Deserialize, PartialEq, Eq, Hash)]
@@ -271,7 +296,8 @@ pub fn rows_to_batch(cols: &[Column], rows: &[Vec<Value>]) -> RecordBatch {
 /// Normalise one Arrow cell into a Value. Unknown types are rendered with
 /// arrow's display formatter into Str (so they still compare structurally).
 pub fn cell(a: &dyn Array, i: usize) -> Value {
-    if a.is_null(i) {
+    // (`is_null` is false on a NullArray: it has no validity bitmap)
+    if a.is_null(i) || a.data_type() == &DataType::Null {
         return Value::Null;
     }
     match a.data_type() {
